@@ -3,7 +3,7 @@
 cd /verif
 for m in mutants/revert-*.diff; do
   n=$(basename $m | cut -d- -f2)
-  case $n in 01) t="C01 C03";; 02) t=C03;; 03) t="C01 C10";; 04) t=C05;; 05) t=C06;; 06) t=C07;; 07) t=C09;; 08) t="C04 C06";; 09) t=C08;; 11) t=C12;; 12) t=C12;; 13) t=C15;; 14) t=C15;; 15) t=C19;; 16) t=C17;; 17) t=C18;; 18) t=C20;; 19) t=C16;; 20) t=C15;; 21) t=C14;; 22) t=C17;; 23) t=C17;; 24) t=C15;; 25) t=C10;; 26) t=C13;; esac
+  case $n in 01) t="C01 C03";; 02) t=C03;; 03) t="C01 C10";; 04) t=C05;; 05) t=C06;; 06) t=C07;; 07) t=C09;; 08) t="C04 C06";; 09) t=C08;; 11) t=C12;; 12) t=C12;; 13) t=C15;; 14) t=C15;; 15) t=C19;; 16) t=C17;; 17) t=C18;; 18) t=C20;; 19) t=C16;; 20) t=C15;; 21) t=C14;; 22) t=C17;; 23) t=C17;; 24) t=C15;; 25) t=C10;; 26) t=C13;; 27) t=C09;; esac
   MUT_PAR=2 python3 tools/mutate.py $m $t
 done
 for d in seeded/*/; do
